@@ -212,16 +212,16 @@ theorem newFormatSpec_rule' (v : Version) (verb : Nat) (prec : Option Nat) (e : 
   simp only [Spec.formatRule, h1, h2, h3, h4, h5, h6, h7]
   by_cases c1 : verb = 102
   · subst c1
-    cases v <;> cases prec <;> simp [genNewFormatSpec, Gen.V1.newFormatSpec, Gen.V2.newFormatSpec, Gen.V3.newFormatSpec, Gen.V3.formatSpecForF]
+    cases v <;> cases prec <;> simp [genNewFormatSpec, Gen.V1.newFormatSpec, Gen.V2.newFormatSpec, Gen.V3.newFormatSpec]
   by_cases c2 : verb = 70
   · subst c2
-    cases v <;> cases prec <;> simp [genNewFormatSpec, Gen.V1.newFormatSpec, Gen.V2.newFormatSpec, Gen.V3.newFormatSpec, Gen.V3.formatSpecForF]
+    cases v <;> cases prec <;> simp [genNewFormatSpec, Gen.V1.newFormatSpec, Gen.V2.newFormatSpec, Gen.V3.newFormatSpec]
   by_cases c3 : verb = 101
   · subst c3
-    cases v <;> cases prec <;> simp [genNewFormatSpec, Gen.V1.newFormatSpec, Gen.V2.newFormatSpec, Gen.V3.newFormatSpec, Gen.V3.formatSpecForE]
+    cases v <;> cases prec <;> simp [genNewFormatSpec, Gen.V1.newFormatSpec, Gen.V2.newFormatSpec, Gen.V3.newFormatSpec]
   by_cases c4 : verb = 69
   · subst c4
-    cases v <;> cases prec <;> simp [genNewFormatSpec, Gen.V1.newFormatSpec, Gen.V2.newFormatSpec, Gen.V3.newFormatSpec, Gen.V3.formatSpecForE]
+    cases v <;> cases prec <;> simp [genNewFormatSpec, Gen.V1.newFormatSpec, Gen.V2.newFormatSpec, Gen.V3.newFormatSpec]
   by_cases c5 : verb = 103
   · subst c5
     cases v <;> rcases prec with _ | p <;> 
